@@ -51,7 +51,7 @@ def replay(ctx, fam, behs, env=None):
     return replay_family(ctx, fam, behs, env=env, classify=classify)
 
 
-def scale(ctx, nquick, nthorough, ops=None, iface=False, family=None):
+def scale(ctx, nquick, nthorough, ops=None, iface=False, family=None, env=None):
     """Scale.tla: the lifecycle requirements on many objects at once - 64 functions in groups, a conditional stub with up to 120
     conditions, a sequence of up to 64 results; instance ScaleI: 12 interface variables x 12 methods. Model-checked on a small
     instance, random histories (8 simulation workers) replayed on the real library."""
@@ -70,6 +70,11 @@ def scale(ctx, nquick, nthorough, ops=None, iface=False, family=None):
         fam = "scale"
     if ops:
         bs = [b for b in bs if any(s["op"] in ops for s in b)]
+    batch = None
+    if env and env.get("VERIF_NOMMAP") == "1":
+        # stubs are never given back and the built-in reserve holds about 260 of them: histories that need fewer than 230, one per process
+        bs = [b for b in bs if sum(sum(1 for x in s.get("is", []) if x) for s in b if s["op"].startswith("Mock")) < 230]
+        batch = 1
     if not bs:
         raise vlib.Broken("no Scale behaviours")
-    replay_family(ctx, family or fam, bs, classify=classify)
+    replay_family(ctx, family or fam, bs, classify=classify, env=env, batch=batch)
